@@ -285,6 +285,26 @@ def compile_source(src, options=None):
     return ("ok", r)
 
 
+def compile_traced(src, options=None):
+    """compile_source plus what the verification hooks saw: the pass / stage events of the
+    pipeline and the diagnostics raised.  Returns (status, result_or_why, info) with
+    info = {failed_pass, last_stage, events, messages, hook_ok}."""
+    from nsl import Compiler, Errors
+    ev, msgs = [], []
+    Compiler._verif_events = ev
+    Errors._verif_messages = msgs
+    try:
+        st, r = compile_source(src, options)
+    finally:
+        Compiler._verif_events = None
+        Errors._verif_messages = None
+    failed = [e[3] for e in ev if e[0] == "pass-fail"]
+    stages = [e[1] for e in ev if e[0] == "stage"]
+    info = {"failed_pass": failed[0] if failed else None, "last_stage": stages[-1] if stages else None,
+            "events": ev, "messages": msgs, "hook_ok": bool(ev)}
+    return st, r, info
+
+
 def link_vm(result):
     from nsl import LinearIR, VM
     l = LinearIR.Linker()
